@@ -60,12 +60,16 @@ def c13(tier, seed):
         with open(os.path.join(d, 'x.orthoxml'), 'w') as f: f.write(xml_lines)
         with open(os.path.join(d, 'x1.orthoxml'), 'w') as f: f.write(xml_one)
         with gzip.open(os.path.join(d, 'x.orthoxml.gz'), 'wt') as f: f.write(xml_lines)
+        # the same document made large (> 1 MiB, many lines, one very long line) with XML comments only
+        pad = ''.join('<!-- padding line %06d %s -->\n' % (i, 'x' * 40) for i in range(22000)) + '<!-- ' + 'y' * 200000 + ' -->\n'
+        xml_big = xml_lines.replace('<groups>', pad + '<groups>', 1)
+        with open(os.path.join(d, 'xbig.orthoxml'), 'w') as f: f.write(xml_big)
         configs = []
         for tree_kind in ('newick_string', 'newick', 'newick_noint', 'phyloxml'):
             for naming in ('own', 'synth'):
                 if tree_kind == 'newick_noint' and naming == 'own':
                     continue
-                for transport in ('string', 'string1', 'file', 'file1', 'gz'):
+                for transport in ('string', 'string1', 'file', 'file1', 'gz', 'bigfile', 'bigstring'):
                     for prog in (False, True):
                         tags = leaf_tags if tree_kind == 'phyloxml' else [None]
                         for lt in tags:
@@ -103,6 +107,10 @@ def c13(tier, seed):
                 kw.update(hog_file=os.path.join(d, 'x.orthoxml'))
             elif transport == 'file1':
                 kw.update(hog_file=os.path.join(d, 'x1.orthoxml'))
+            elif transport == 'bigfile':
+                kw.update(hog_file=os.path.join(d, 'xbig.orthoxml'))
+            elif transport == 'bigstring':
+                kw.update(hog_file=xml_big, orthoXML_as_string=True)
             else:
                 kw.update(hog_file=os.path.join(d, 'x.orthoxml.gz'))
             try:
@@ -210,7 +218,7 @@ def strip_anns(c):
 
 def c14(tier, seed):
     ex = Explorer('C14', tier, seed)
-    n = budget(tier, 60)
+    n = budget(tier, 150)
     for k in range(n):
         D = std_dataset(ex.rng, maxleaves=ex.rng.choice([3, 4, 5, 6, 8, 10]))
         cid = 'C14-%d' % k
@@ -537,8 +545,8 @@ def c17(tier, seed):
                 a, b = ex.rng.sample(taxa, 2); ops.append([w, kind, a, b])
             elif kind == 'tp':
                 ops.append([w, 'tp'])
-            elif kind in ('tph',) and tids:
-                ops.append([w, 'tph', ex.rng.choice(tids)])
+            elif kind in ('tph',) and hogkeys:
+                ops.append([w, 'tph', ex.rng.choice(hogkeys)])
             elif kind in ('iham', 'nav') and hogkeys:
                 ops.append([w, kind, ex.rng.choice(hogkeys)])
             elif kind == 'clust' and taxa:
@@ -563,7 +571,7 @@ def c17(tier, seed):
                 if kind == 'tp':
                     return 'tpfull ' + ob.profileS(h.create_tree_profile().treemap)
                 if kind == 'tph':
-                    t = h.get_hog_by_id(op[2])
+                    t = byk[op[2]]
                     return 'tphog ' + ob.profileS(h.create_tree_profile(hog=t).treemap, pathof(t.genome.taxon))
                 if kind == 'iham':
                     x = byk[op[2]]
